@@ -1,5 +1,5 @@
 import Canopy.Props.C04
-import Canopy.Proof.LedgerOpsInv
+import Canopy.Proof.LedgerEndBlockLive
 /-!
 # C12 — staking bookkeeping stays consistent and the chain never wedges itself
 
@@ -22,55 +22,6 @@ def f3Ledger : Ledger :=
                    (2, { stake := 1000000, committees := [1], delegate := false, compound := false, output := 2 })]
     unstaking := [((5, 1), ())]
     supply := { total := 1000001, staked := 1000001, committee := [(1, 1000001)] } }
-
-
-/-! ## the chain never wedges itself
-
-`Live L` (`Canopy.Proof.LedgerLive`) is the part of the invariants that end-of-block code relies on: the supply
-identity (so that returning a stake to its output account cannot overflow), the four tallies (so that the guarded
-subtractions of `DeleteValidator` succeed), no key stored twice, and every unstaking marker referring to an existing
-validator unstaking at exactly that height. It follows from `InvSupply ∧ InvStaking`. -/
-
-theorem live_of_invariants {L : Ledger} (hi : InvSupply L) (hs : InvStaking L) : Live L :=
-  ⟨hi, hs.tallies, hs.wf.validators, ⟨hs.wf.committee, hs.wf.delegated⟩, hs.wf.unstaking,
-   fun h a hb => (hs.markers.unstaking h a).1 hb⟩
-
-/-- **never wedged, next block** (`_partial`: blocks with reward percents waiting to be distributed are not covered —
-`NoPendingRewards`; the reward distribution itself is covered for the supply identity by C04).
-Hypotheses besides the invariants: the halvening period is configured; the scheduled mint does not overflow the
-recorded total (F5, see C04); the finish height of a forced unstake is not 0 mod 2^64. -/
-theorem never_wedged_partial {L : Ledger} (hi : InvSupply L) (hs : InvStaking L)
-    (hb : L.cfg.blocksPerHalvening ≠ 0) (hx : L.supply.total + scheduledMint L < 2 ^ 64)
-    (hh : (L.height + L.params.unstakingBlocks) % 2 ^ 64 ≠ 0) (hr : NoPendingRewards L) :
-    ∃ L', emptyBlock L = .ok L' ∧ L'.height = L.height + 1 ∧ Live L' := by
-  have hU : (2 : Nat) ^ 64 = U64 := by decide
-  rw [hU] at hx hh
-  obtain ⟨L', h, l, e, _⟩ := emptyBlock_live (live_of_invariants hi hs) hb hx hh hr
-  exact ⟨L', h, e, l⟩
-
-/-- **never wedged, every future height** (`_partial` in the same sense): from a live ledger, `n` consecutive empty
-blocks apply, for every `n` — in particular up to and beyond the largest pending unstaking / max-pause marker.
-The arithmetic hypotheses bound the `n` scheduled mints and the heights reached. -/
-theorem never_wedged_future_partial : ∀ (n : Nat) (L : Ledger), Live L → L.cfg.blocksPerHalvening ≠ 0 →
-    L.supply.total + n * L.cfg.initialTokensPerBlock < 2 ^ 64 → 0 < L.height →
-    L.height + n + L.params.unstakingBlocks < 2 ^ 64 → NoPendingRewards L → emptyBlocksOk n L = true
-  | 0, _, _, _, _, _, _, _ => rfl
-  | n + 1, L, hl, hb, hx, h0, hh, hr => by
-    have hU : (2 : Nat) ^ 64 = U64 := by decide
-    rw [hU] at hx hh
-    have hm : scheduledMint L ≤ L.cfg.initialTokensPerBlock := Nat.div_le_self _ _
-    have hx1 : L.supply.total + scheduledMint L < U64 := by
-      have : (n + 1) * L.cfg.initialTokensPerBlock = n * L.cfg.initialTokensPerBlock + L.cfg.initialTokensPerBlock := Nat.succ_mul _ _
-      omega
-    have hh1 : (L.height + L.params.unstakingBlocks) % U64 ≠ 0 := by rw [Nat.mod_eq_of_lt (by omega)]; omega
-    obtain ⟨L', h, l, e1, e2, e3, r, t⟩ := emptyBlock_live hl hb hx1 hh1 hr
-    unfold emptyBlocksOk
-    rw [h]
-    refine never_wedged_future_partial n L' l (by rw [e3]; exact hb) ?_ (by omega) ?_ r
-    · rw [hU, e3]
-      have : (n + 1) * L.cfg.initialTokensPerBlock = n * L.cfg.initialTokensPerBlock + L.cfg.initialTokensPerBlock := Nat.succ_mul _ _
-      omega
-    · rw [hU, e1, e2]; omega
 
 
 /-! ## `InvStaking` is preserved by every modelled operation
@@ -120,7 +71,7 @@ theorem invStaking_preserved {L L' : Ledger} {op : Op} (hinv : Inv L) (hsafe : O
   | retire chain =>
     obtain rfl := Except.ok.inj h
     unfold retireCommittee; split <;> exact hs.of_same rfl rfl rfl rfl rfl rfl rfl
-  | endBlock => exact endBlock_inv hi hp hs hh h
+  | endBlock => exact endBlock_inv hi hp hs hh.unstaking h
 
 /-- one operation keeps the whole C12 invariant (the two C04 clauses by `Canopy.C04.op_conserves`) -/
 theorem op_preserves {L L' : Ledger} {op : Op} (hinv : Inv L) (hsafe : Op.Safe L op) (h : op.apply L = .ok L') : Inv L' :=
@@ -178,7 +129,9 @@ theorem genesis_accepts_only_distinct {cfg : Config} {params : Params} {accounts
       · exact absurd hval (by intro h; cases h)
       · split at hval
         · exact absurd hval (by intro h; cases h)
-        · next hdv =>
+        · next hcv =>
+          have hdv := (genesisValidatorsError_none _ _ hcv).2.1
+          have hdc := (genesisValidatorsError_none _ _ hcv).2.2
           split at hval
           · exact absurd hval (by intro h; cases h)
           · next hda =>
@@ -188,21 +141,77 @@ theorem genesis_accepts_only_distinct {cfg : Config} {params : Params} {accounts
               exact ⟨hasDup_false_nodup _ (by simpa using hdv), hasDup_false_nodup _ (by simpa using hda),
                 hasDup_false_nodup _ (by simpa using hdp)⟩
 
+/-- the error identity an operation was rejected with -/
+def _root_.Except.rejectedWith (r : M Ledger) : Option String := match r with | .error e => some e.code | .ok _ => none
+
 /-- the loader rejects a genesis listing a validator, an account or a pool twice, with the pinned errors -/
 theorem genesis_rejects_duplicates :
-    genesis {} {} [(1, 5), (1, 7)] [] [] [] = .error .invalidAddress ∧ genesis {} {} [] [(9, 5), (9, 7)] [] [] = .error .invalidChainId ∧
-    genesis {} {} [] [] [{ addr := 3, val := { stake := 5, committees := [1], delegate := false, compound := false, output := 3 } }, { addr := 3, val := { stake := 6, committees := [1], delegate := false, compound := false, output := 3 } }] [] = .error .invalidAddress := by
+    (genesis {} {} [(1, 5), (1, 7)] [] [] []).rejectedWith = some Canopy.Gen.LedgerFacts.errInvalidAddress ∧
+    (genesis {} {} [] [(9, 5), (9, 7)] [] []).rejectedWith = some Canopy.Gen.LedgerFacts.errInvalidChainId ∧
+    (genesis {} {} [] [] [{ addr := 3, val := { stake := 5, committees := [1], delegate := false, compound := false, output := 3 } }, { addr := 3, val := { stake := 6, committees := [1], delegate := false, compound := false, output := 3 } }] []).rejectedWith = some Canopy.Gen.LedgerFacts.errInvalidAddress := by
   decide
 
-/-- an end-of-block on a live ledger keeps the four tallies, the no-duplicate-keys facts and the soundness of the
-unstaking markers (`Live`), see `never_wedged_partial` -/
-theorem endBlock_keeps_live {L : Ledger} (hl : Live L) (hb : L.cfg.blocksPerHalvening ≠ 0)
-    (hx : L.supply.total + scheduledMint L < 2 ^ 64) (hh : (L.height + L.params.unstakingBlocks) % 2 ^ 64 ≠ 0)
-    (hr : NoPendingRewards L) : ∃ L', emptyBlock L = .ok L' ∧ Live L' := by
+/-! ## the chain never wedges itself
+
+An empty block (begin-block mint, no transactions, `EndBlock` with reward distribution / auto-compounding, max-pause
+force-unstake and finished unstaking) applies on EVERY ledger satisfying the invariant — with or without reward
+percents waiting to be distributed — and the invariant holds again at the next height.
+
+Hypotheses besides the invariant:
+* `CommitteesDistinct`: no validator lists a committee twice. `checkCommittees` enforces it for stake / edit-stake
+  messages; `ValidateGenesisState` does not look at the list. It is what bounds every per-committee tally by the total
+  stake, so that the GUARDED additions of `SetCommittees` / `SetDelegations` during auto-compounding cannot fail
+  (with a doubly listed committee and a stake near 2^63 they would, and `EndBlock` with them).
+* the halvening period is configured (`BlocksPerHalvening ≠ 0`, else `GetBlockMintStats` divides by zero);
+* the scheduled mint does not overflow the recorded total (F5, see C04);
+* the finish height of a forced unstake is not 0 mod 2^64 (see `HeightsOK`). -/
+
+theorem live_of_invariants {L : Ledger} (hi : InvSupply L) (hs : InvStaking L) : Live L :=
+  ⟨hi, hs.tallies, hs.wf.validators, ⟨hs.wf.committee, hs.wf.delegated⟩, hs.wf.unstaking,
+   fun h a hb => (hs.markers.unstaking h a).1 hb⟩
+
+/-- **`EndBlock` succeeds** and keeps the invariant -/
+theorem endBlock_succeeds {L : Ledger} (hinv : Inv L) (hc : CommitteesDistinct L)
+    (hh : (L.height + L.params.unstakingBlocks) % 2 ^ 64 ≠ 0) :
+    ∃ L', endBlock L = .ok L' ∧ L'.height = L.height + 1 ∧ Inv L' ∧ CommitteesDistinct L' := by
+  have hU : (2 : Nat) ^ 64 = U64 := by decide
+  rw [hU] at hh
+  obtain ⟨hi, hp, hs⟩ := hinv
+  obtain ⟨L', h, i, p, s, d, e, _⟩ := endBlock_ok_of hi hp hs hh (dupCommittees_zero_of hs.wf.validators hc)
+  exact ⟨L', h, e, ⟨i, p, s⟩, committeesDistinct_of_zero d⟩
+
+/-- **never wedged, next block** -/
+theorem never_wedged {L : Ledger} (hinv : Inv L) (hc : CommitteesDistinct L)
+    (hb : L.cfg.blocksPerHalvening ≠ 0) (hx : L.supply.total + scheduledMint L < 2 ^ 64)
+    (hh : (L.height + L.params.unstakingBlocks) % 2 ^ 64 ≠ 0) :
+    ∃ L', emptyBlock L = .ok L' ∧ L'.height = L.height + 1 ∧ Inv L' ∧ CommitteesDistinct L' := by
   have hU : (2 : Nat) ^ 64 = U64 := by decide
   rw [hU] at hx hh
-  obtain ⟨L', h, l, _⟩ := emptyBlock_live hl hb hx hh hr
-  exact ⟨L', h, l⟩
+  obtain ⟨hi, hp, hs⟩ := hinv
+  obtain ⟨L', h, i, p, s, d, e, _⟩ := emptyBlock_ok hi hp hs (dupCommittees_zero_of hs.wf.validators hc) hb hx hh
+  exact ⟨L', h, e, ⟨i, p, s⟩, committeesDistinct_of_zero d⟩
+
+/-- **never wedged, every future height**: `n` consecutive empty blocks apply, for every `n` — in particular up to and
+beyond the largest pending unstaking / max-pause marker. The arithmetic hypotheses bound the `n` scheduled mints and
+the heights reached. -/
+theorem never_wedged_future : ∀ (n : Nat) (L : Ledger), Inv L → CommitteesDistinct L → L.cfg.blocksPerHalvening ≠ 0 →
+    L.supply.total + n * L.cfg.initialTokensPerBlock < 2 ^ 64 → 0 < L.height →
+    L.height + n + L.params.unstakingBlocks < 2 ^ 64 → emptyBlocksOk n L = true
+  | 0, _, _, _, _, _, _, _ => rfl
+  | n + 1, L, hinv, hc, hb, hx, h0, hh => by
+    have hU : (2 : Nat) ^ 64 = U64 := by decide
+    rw [hU] at hx hh
+    obtain ⟨hi, hp, hs⟩ := hinv
+    have hm : scheduledMint L ≤ L.cfg.initialTokensPerBlock := Nat.div_le_self _ _
+    have hsm : (n + 1) * L.cfg.initialTokensPerBlock = n * L.cfg.initialTokensPerBlock + L.cfg.initialTokensPerBlock := Nat.succ_mul _ _
+    have hx1 : L.supply.total + scheduledMint L < U64 := by omega
+    have hh1 : (L.height + L.params.unstakingBlocks) % U64 ≠ 0 := by rw [Nat.mod_eq_of_lt (by omega)]; omega
+    obtain ⟨L', h, i, p, s, d, e1, e2, e3, t⟩ := emptyBlock_ok hi hp hs (dupCommittees_zero_of hs.wf.validators hc) hb hx1 hh1
+    unfold emptyBlocksOk
+    rw [h]
+    refine never_wedged_future n L' ⟨i, p, s⟩ (committeesDistinct_of_zero d) (by rw [e3]; exact hb) ?_ (by omega) ?_
+    · rw [hU, e3]; omega
+    · rw [hU, e1, e2]; omega
 
 /-- non-vacuity: the executable versions of the invariant hold on the scenario ledger and an unstake succeeds on it -/
 example : talliesB f3Ledger = true ∧ markersB f3Ledger = true ∧ (handleUnstake f3Ledger 2).toOption.isSome = true := by decide
